@@ -163,7 +163,12 @@ def label(shape, tagsel, datasel, emptyagg, counter=None):
 
 
 def random_tree(rng, maxnodes=60, maxdepth=8, tags=None, datagen=None):
-    tags = tags or ["OFX", "STMTRS", "A", "B1", "X.Y", "A_B", "INTU.BID", "CODE", "NAME", "Z9", "_U"]
+    if tags is None:
+        tags = ["OFX", "STMTRS", "A", "B1", "X.Y", "A_B", "INTU.BID", "CODE", "NAME", "Z9", "_U"]
+        if rng.random() < 0.3:
+            # names as long as / longer than any tag the models define (23), and a few-letter alphabet so that a name recurs
+            # inside its own subtree (A(B(A x)))
+            tags = rng.choice([tags + ["L" * 31 + "A", "L" * 32 + "B", "VENDOR." + "X" * 40, "Q" * 64], ["A", "B"], ["A", "B", "C"]])
     budget = [rng.randint(1, maxnodes)]
 
     def data():
